@@ -211,21 +211,45 @@ Proof.
       reflexivity.
   - rewrite IH. destruct (run_hist own (map from_ev r)). reflexivity.
 Qed.
-Lemma name_joins_hist : forall base l own,
-  name_joins base own l = (map fst (fst (run_hist own (map (join_ev base) l))), snd (run_hist own (map (join_ev base) l))).
+Lemma name_from_sub : forall l own,
+  sub_only l (fst (name_from sub_count own l)) = sub_names_hist (fst (run_hist own (map from_ev l))).
 Proof.
-  intros base. induction l as [|[[h s] cnd] r IH]; intros own; [reflexivity|].
-  destruct s as [t|x|n]; cbn [map name_joins]; unfold join_ev at 1 3; cbn [fst snd].
-  - cbn [run_hist]. rewrite IH. destruct (run_hist own (map (join_ev base) r)). reflexivity.
+  induction l as [|s r IH]; intros own; [reflexivity|].
+  destruct s as [t|x|n]; cbn [map from_ev name_from run_hist sub_only].
+  - specialize (IH own). destruct (name_from sub_count own r) as [a b], (run_hist own (map from_ev r)) as [c d].
+    cbn [fst hd tl app] in *. exact IH.
   - destruct (qalias x) as [a|].
-    + cbn [run_hist]. rewrite IH. destruct (run_hist own (map (join_ev base) r)). reflexivity.
-    + destruct x; cbn [run_hist]; rewrite IH.
-      * destruct (run_hist (S own) (map (join_ev base) r)). reflexivity.
-      * destruct (run_hist own (map (join_ev base) r)). reflexivity.
-      * destruct (run_hist own (map (join_ev base) r)). reflexivity.
-      * destruct (run_hist own (map (join_ev base) r)). reflexivity.
-      * destruct (run_hist own (map (join_ev base) r)). reflexivity.
-  - cbn [run_hist]. rewrite IH. destruct (run_hist own (map (join_ev base) r)). reflexivity.
+    + specialize (IH own). destruct (name_from sub_count own r) as [p b], (run_hist own (map from_ev r)) as [c d].
+      cbn [fst hd tl app] in *. unfold sub_names_hist in *. cbn. rewrite IH. reflexivity.
+    + unfold inner_count.
+      specialize (IH (S (Nat.max own match x with QSet _ _ _ _ _ _ => 0 | _ => sub_count x end))).
+      destruct (name_from sub_count (S (Nat.max own match x with QSet _ _ _ _ _ _ => 0 | _ => sub_count x end)) r) as [p b],
+               (run_hist (S (Nat.max own match x with QSet _ _ _ _ _ _ => 0 | _ => sub_count x end)) (map from_ev r)) as [c d].
+      cbn [fst hd tl app] in *. unfold sub_names_hist in *. cbn. rewrite IH. reflexivity.
+  - specialize (IH own). destruct (name_from sub_count own r) as [a b], (run_hist own (map from_ev r)) as [c d].
+    cbn [fst hd tl app] in *. exact IH.
+Qed.
+(* join(): the tags of the sub-query / set-operation sources and the counter are those of the history run, whatever
+   the tables among the joins are called *)
+Lemma name_joins_hist : forall base l taken own,
+  sub_only (jsources l) (fst (name_joins base taken own l)) = sub_names_hist (fst (run_hist own (map join_ev l)))
+  /\ snd (name_joins base taken own l) = snd (run_hist own (map join_ev l)).
+Proof.
+  intros base. induction l as [|[[h s] cnd] r IH]; intros taken own; [split; reflexivity|].
+  unfold jsources in *. destruct s as [t|x|n]; cbn [map name_joins sub_only fst snd]; unfold join_ev at 1 3; cbn [fst snd].
+  - cbn [run_hist].
+    match goal with |- context [name_joins base ?T own r] => specialize (IH T own); destruct (name_joins base T own r) as [a b] end.
+    destruct (run_hist own (map join_ev r)) as [c d]. cbn [fst snd hd tl app] in *. exact IH.
+  - destruct (qalias x) as [a|]; cbn [run_hist].
+    + match goal with |- context [name_joins base ?T own r] => specialize (IH T own); destruct (name_joins base T own r) as [p b] end.
+      destruct (run_hist own (map join_ev r)) as [c d]. cbn [fst snd hd tl app] in *. destruct IH as [I1 I2].
+      unfold sub_names_hist in *. cbn. rewrite I1. split; [reflexivity | exact I2].
+    + match goal with |- context [name_joins base ?T (S own) r] => specialize (IH T (S own)); destruct (name_joins base T (S own) r) as [p b] end.
+      destruct (run_hist (S own) (map join_ev r)) as [c d]. cbn [fst snd hd tl app] in *. destruct IH as [I1 I2].
+      unfold sub_names_hist in *. cbn. rewrite I1. split; [reflexivity | exact I2].
+  - cbn [run_hist].
+    match goal with |- context [name_joins base ?T own r] => specialize (IH T own); destruct (name_joins base T own r) as [a b] end.
+    destruct (run_hist own (map join_ev r)) as [c d]. cbn [fst snd hd tl app] in *. exact IH.
 Qed.
 Lemma run_hist_app : forall a b own,
   run_hist own (a ++ b) = (fst (run_hist own a) ++ fst (run_hist (snd (run_hist own a)) b), snd (run_hist (snd (run_hist own a)) b)).
@@ -235,13 +259,78 @@ Proof.
   - destruct e as [[x|] inner | [x|] | o]; cbn [app run_hist]; rewrite IH;
       match goal with |- context [run_hist ?o r] => destruct (run_hist o r) as [l n] end; reflexivity.
 Qed.
-(* the effective aliases Query.rquery works with are those of the history run *)
-Theorem stmt_names_hist : forall base from joins,
-  fst (stmt_names base from joins) ++ snd (stmt_names base from joins)
-  = map fst (fst (run_hist 0 (stmt_hist base from joins))).
+Lemma sub_names_hist_app a b : sub_names_hist (a ++ b) = sub_names_hist a ++ sub_names_hist b.
+Proof. unfold sub_names_hist. rewrite filter_app, map_app. reflexivity. Qed.
+(* the names Query.rquery gives the sub-query / set-operation sources are those of the history run
+   "every from_() first, then the joins" *)
+Theorem stmt_names_hist : forall base tk from joins,
+  sub_only from (fst (stmt_names base tk from joins)) ++ sub_only (jsources joins) (snd (stmt_names base tk from joins))
+  = sub_names_hist (fst (run_hist 0 (stmt_hist from joins))).
 Proof.
-  intros base from joins. unfold stmt_names, stmt_hist. rewrite run_hist_app. cbn [fst].
-  rewrite name_from_hist, name_joins_hist. cbn [fst snd]. rewrite map_app. reflexivity.
+  intros base tk from joins. unfold stmt_names, stmt_hist. rewrite run_hist_app. cbn [fst]. rewrite sub_names_hist_app.
+  rewrite <- name_from_sub. rewrite (name_from_hist from 0) at 2. cbn [snd].
+  pose proof (name_from_hist from 0) as F. destruct (name_from sub_count 0 from) as [fn n1]. inversion F; subst; clear F.
+  match goal with |- context [name_joins base ?T ?n joins] =>
+    destruct (name_joins_hist base joins T n) as [J _]; destruct (name_joins base T n joins) as [jn n2] end.
+  cbn [fst snd] in *. rewrite J. reflexivity.
+Qed.
+
+(* ---- do_join's numbered aliases: first_free gives a name that is not in use ---- *)
+Lemma sapp_cancel_l (p a b : string) : (p ++ a)%string = (p ++ b)%string -> a = b.
+Proof. induction p as [|c p IH]; cbn; intros H; [exact H|]. inversion H. auto. Qed.
+Lemma first_free_aux_fresh nm taken : forall fuel n R,
+  (forall k, n <= k -> In (nm ++ nat_to_string k)%string taken -> In (nm ++ nat_to_string k)%string R) ->
+  List.length R <= fuel -> ~ In (first_free_aux nm taken fuel n) taken.
+Proof.
+  induction fuel as [|f IH]; intros n R HR HL.
+  - cbn. intros Hin. apply (HR n (le_n n)) in Hin. destruct R; [destruct Hin | cbn in HL; lia].
+  - cbn [first_free_aux]. destruct (existsb (String.eqb (nm ++ nat_to_string n)) taken) eqn:E.
+    + apply existsb_exists in E as [y [Hy Ey]]. apply String.eqb_eq in Ey. subst y.
+      apply (IH (S n) (remove string_dec (nm ++ nat_to_string n)%string R)).
+      * intros k Hk Hin. apply in_in_remove.
+        -- intros Heq. apply sapp_cancel_l in Heq. apply nat_to_string_inj in Heq. lia.
+        -- apply HR; [lia | exact Hin].
+      * pose proof (remove_length_lt string_dec R (nm ++ nat_to_string n)%string (HR n (le_n n) Hy)). lia.
+    + intros Hin. assert (X : existsb (String.eqb (nm ++ nat_to_string n)) taken = true).
+      { apply existsb_exists. exists (nm ++ nat_to_string n)%string. split; [exact Hin | apply String.eqb_refl]. }
+      congruence.
+Qed.
+Theorem first_free_fresh : forall nm taken, ~ In (first_free nm taken) taken.
+Proof. intros nm taken. unfold first_free. apply (first_free_aux_fresh nm taken _ 2 taken); auto. Qed.
+
+(* every numbered alias do_join invents is a name no earlier source of the statement carries (FROM items, UPDATE target,
+   WITH names, earlier joins), and the numbered aliases of one statement are pairwise distinct *)
+Theorem numbered_fresh : forall base l taken own,
+  (forall s, In s (numbered_of (jsources l) (fst (name_joins base taken own l))) -> ~ In s taken)
+  /\ NoDup (numbered_of (jsources l) (fst (name_joins base taken own l))).
+Proof.
+  intros base. unfold jsources. induction l as [|[[h s] cnd] r IH]; intros taken own; [split; [intros s [] | constructor]|].
+  destruct s as [t|x|n]; cbn [map name_joins numbered_of fst snd].
+  - match goal with |- context [name_joins base ?T own r] => specialize (IH T own); destruct (name_joins base T own r) as [a b] end.
+    cbn [fst hd tl] in *. destruct IH as [I1 I2]. destruct (talias t) as [al|] eqn:Ea.
+    + cbn [app]. split; [|exact I2]. intros s Hs Hin. apply (I1 s Hs). right. exact Hin.
+    + destruct (existsb (tref_eqb t) base).
+      * cbn [app]. split.
+        -- intros s [<-|Hs]; [apply first_free_fresh|]. intros Hin. apply (I1 s Hs). right. exact Hin.
+        -- constructor; [|exact I2]. intros Hin. apply (I1 _ Hin). left. reflexivity.
+      * cbn [app]. split; [|exact I2]. intros s Hs Hin. apply (I1 s Hs). right. exact Hin.
+  - destruct (qalias x) as [al|].
+    + match goal with |- context [name_joins base ?T own r] => specialize (IH T own); destruct (name_joins base T own r) as [a b] end.
+      cbn [fst hd tl app] in *. destruct IH as [I1 I2]. split; [|exact I2]. intros s Hs Hin. apply (I1 s Hs). right. exact Hin.
+    + match goal with |- context [name_joins base ?T (S own) r] => specialize (IH T (S own)); destruct (name_joins base T (S own) r) as [a b] end.
+      cbn [fst hd tl app] in *. destruct IH as [I1 I2]. split; [|exact I2]. intros s Hs Hin. apply (I1 s Hs). right. exact Hin.
+  - match goal with |- context [name_joins base ?T own r] => specialize (IH T own); destruct (name_joins base T own r) as [a b] end.
+    cbn [fst hd tl app] in *. destruct IH as [I1 I2]. split; [|exact I2]. intros s Hs Hin. apply (I1 s Hs). right. exact Hin.
+Qed.
+Theorem name2_NoDup : forall x, NoDup (name2_names x).
+Proof.
+  intros x. destruct x; cbn [name2_names]; try constructor; unfold stmt_names.
+  - destruct (name_from sub_count 0 from) as [fn n1].
+    pose proof (numbered_fresh (base_tables from) joins (sel_tk withs (src_names from fn)) n1) as [_ N].
+    destruct (name_joins (base_tables from) (sel_tk withs (src_names from fn)) n1 joins). exact N.
+  - destruct (name_from sub_count 0 from) as [fn n1].
+    pose proof (numbered_fresh (tbl :: base_tables from) joins (upd_tk tbl (src_names from fn)) n1) as [_ N].
+    destruct (name_joins (tbl :: base_tables from) (upd_tk tbl (src_names from fn)) n1 joins). exact N.
 Qed.
 
 (* statement level *)
@@ -264,9 +353,9 @@ Proof.
   - apply IH; auto. intros y Hy. apply D. right. exact Hy.
 Qed.
 Theorem builder_names_NoDup : forall x,
-  NoDup (name2_names x) -> forallb (fun s => negb (sq_prefixed s)) (name2_names x) = true -> NoDup (builder_names x).
+  forallb (fun s => negb (sq_prefixed s)) (name2_names x) = true -> NoDup (builder_names x).
 Proof.
-  intros x HN HP. unfold builder_names. apply NoDup_app_disjoint; [apply invented_NoDup | exact HN |].
+  intros x HP. unfold builder_names. apply NoDup_app_disjoint; [apply invented_NoDup | apply name2_NoDup |].
   intros s Hi Hn. apply invented_prefixed in Hi. rewrite forallb_forall in HP. specialize (HP _ Hn).
   rewrite Hi in HP. discriminate HP.
 Qed.
